@@ -9,6 +9,7 @@ package main
 //   res 3 ns=125,-175,30850 term=C
 
 import (
+	"context"
 	"fmt"
 	"math"
 	"math/rand"
@@ -53,7 +54,36 @@ func genPrecision(tier string, seed int64, only string) []*Case {
 			}
 		}
 	}
+	// ctxrun=1: the contexts, for every magnitude of `places` - the moderate ones, the chunked big.Float paths (|places| > 308),
+	// the infinite ones - and inputs whose result overflows: each value is sent with a context of its own (7.k) and comes out
+	// with exactly that context (a per-item map: one output per input, the notification's context, never the subscription's)
+	for _, op := range []string{"Floor", "Ceil"} {
+		if only != "" && only != op {
+			continue
+		}
+		for _, places := range []int{-400, -309, -308, -20, 0, 15, 308, 309, 400, -9856, -9857, 9857, -100000, 100000, math.MinInt64 + 1, math.MaxInt64} {
+			id++
+			out = append(out, newCase(id, "kind", "precision", "op", op, "places", strconv.Itoa(places), "k", "1", "ms", "0,247,-247,3,-3,20000001", "ctxrun", "1"))
+		}
+	}
 	return out
+}
+
+func runPrecisionCtx(c *Case, op func(ro.Observable[float64]) ro.Observable[float64], xs []float64) string {
+	setRecorder(nil)
+	src := ro.NewUnsafeObservableWithContext(func(ctx context.Context, dest ro.Observer[float64]) ro.Teardown {
+		for i, x := range xs {
+			dest.NextWithContext(withMark(ctx, i+1), x)
+		}
+		dest.CompleteWithContext(withMark(ctx, len(xs)+1))
+		return nil
+	})
+	var got []string
+	op(src).SubscribeWithContext(ctxFromMarks([]int{7}), ro.NewObserverWithContext(
+		func(ctx context.Context, v float64) { got = append(got, "N/"+renderCtx(ctx)) },
+		func(ctx context.Context, err error) { got = append(got, "E/"+renderCtx(ctx)) },
+		func(ctx context.Context) { got = append(got, "C/"+renderCtx(ctx)) }))
+	return "res " + c.id + " ctxs=" + joinOrDash(got)
 }
 
 func runPrecision(c *Case) string {
@@ -69,6 +99,9 @@ func runPrecision(c *Case) string {
 		op = ro.CeilWithPrecision(places)
 	} else {
 		op = ro.FloorWithPrecision(places)
+	}
+	if c.get("ctxrun", "-") == "1" {
+		return runPrecisionCtx(c, op, xs)
 	}
 	setRecorder(nil)
 	vals, err := ro.Collect(op(ro.Just(xs...)))
